@@ -29,12 +29,14 @@ MANIFEST = dict(
          "julian_date/from_julian_date are mutually inverse, unixtime_{s,ms,µs}(from_unixtime_{s,ms,µs}(n)) = n for "
          "every integer n and from_unixtime(unixtime(t)) = t on µs-aligned instants (exact rational arithmetic, no "
          "range limits), coth(acoth x) = x for |x| > 1, acoth(coth x) = x for x <> 0, cot(acot x) = x for x <> 0, "
-         "sech(asech x) = x for 0 < x <= 1, csch(acsch x) = x for x <> 0 over "
+         "sech(asech x) = x for 0 < x <= 1, csch(acsch x) = x for x <> 0, secant(arcsecant x) = x and csc(acsc x) = x for "
+         "|x| >= 1, sqrt(sqr x) = x and sqr(sqrt x) = x for x >= 0, cbrt(x^3) = x for x <> 0 over "
          "the reals (stdlib real-number axioms), and for the hand-ported _mixed_unit_list: the parts add up to the "
-         "value, there is one part per unit and all but the last are whole multiples of their unit. NOT proved "
+         "value, there is one part per unit and all but the last are whole multiples of their unit, for arbitrary unit lists "
+         "(C23_mixed_sum, C23_mixed_whole) and for unit_list with its unique/sort-descending cleaning (C23_unit_list). NOT proved "
          "(oracle/correspondence only): floating-point behaviour (tolerances), the FFI pairs sin/asin, cos/acos, "
-         "tan/atan, sinh/asinh, cosh/acosh, tanh/atanh, exp/ln, log10, log2, sqrt/sqr, cbrt, "
-         "the jiff calendar behind DateTime, unit_list's sorting/deduplication.",
+         "tan/atan, sinh/asinh, cosh/acosh, tanh/atanh, exp/ln, log10, log2, "
+         "the jiff calendar behind DateTime; the FFI pairs are oracle-only by nature (libm).",
     design_ref="DESIGN.md §6 C23; design/misc.md",
     note="Trusted: Coq kernel; the translator tools/props/c23.py + nbtexpr.py (its output is compared with the running "
          "implementation on random arguments, and Q definitions are evaluated in Coq against the same trees); "
@@ -45,7 +47,7 @@ MANIFEST = dict(
 
 THEOREMS = ["C23_celsius", "C23_fahrenheit", "C23_julian", "C23_unixtime_int", "C23_unixtime_aligned",
             "C23_coth_acoth", "C23_acoth_coth", "C23_cot_acot", "C23_sech_asech", "C23_csch_acsch",
-            "C23_mixed_sum", "C23_mixed_whole"]
+            "C23_sec_arcsec", "C23_csc_acsc", "C23_sqrt_sqr", "C23_cbrt_cube", "C23_mixed_sum", "C23_mixed_whole", "C23_unit_list"]
 ALLOWED_AXIOMS = ["ClassicalDedekindReals.sig_forall_dec", "ClassicalDedekindReals.sig_not_dec",
                   "FunctionalExtensionality.functional_extensionality_dep", "Classical_Prop.classic"]
 # common.print_assumptions reads the header line "Axioms:" as a name and misses names whose type starts on the
@@ -63,11 +65,14 @@ Q_SOURCES = [
     ("datetime/julian_date.nbt", ["_julian_epoch", "julian_date", "J2000", "from_julian_date"]),
 ]
 R_SOURCES = [
-    ("math/trigonometry_extra.nbt", ["cot", "acot", "coth", "acoth", "sech", "asech", "csch", "acsch"]),
+    ("core/functions.nbt", ["sqrt", "cbrt", "sqr"]),
+    ("math/trigonometry_extra.nbt", ["cot", "acot", "coth", "acoth", "secant", "arcsecant", "cosecant", "csc", "acsc",
+                                     "sech", "asech", "csch", "acsch"]),
 ]
 EXTERNAL_UNITS = {"kelvin": "nbt_kelvin"}          # base units defined outside the translated modules
 FFI = {"_unixtime_µs": "ffi_unixtime_us", "_from_unixtime_µs": "ffi_from_unixtime_us"}
-R_BUILTINS = {"sqrt": "sqrt", "ln": "ln", "exp": "exp", "sinh": "sinh", "cosh": "cosh", "tan": "tan", "atan": "atan"}
+R_BUILTINS = {"ln": "ln", "exp": "exp", "sinh": "sinh", "cosh": "cosh", "tan": "tan", "atan": "atan",
+              "sin": "sin", "cos": "cos", "asin": "asin", "acos": "acos"}
 
 
 def coq_name(n):
@@ -159,8 +164,16 @@ class Lib:
                     return "(exp %s)" % t(y)
                 if y[0] == "num" and y[1].denominator == 1 and y[1] >= 0:
                     return "(%s ^ %d)" % (t(x), y[1].numerator)
+                if target == "R" and y == ("bin", "/", ("num", Fraction(1)), ("num", Fraction(2))):
+                    return "(sqrt %s)" % t(x)          # x^(1/2), the definition of core::functions::sqrt
+                if target == "R" and y[0] == "bin" and y[1] == "/" and y[2][0] == "num" and y[3][0] == "num":
+                    return "(Rpower %s %s)" % (t(x), t(y))       # other constant rational exponents
                 raise Unsupported("power %r" % (a,))
             return "(%s %s %s)" % (t(x), op, t(y))
+        if k == "if" and target == "R" and a[1][0] == "cmp" and a[1][1] in ("<", ">"):
+            c = a[1]
+            lo, hi = (c[2], c[3]) if c[1] == "<" else (c[3], c[2])
+            return "(if Rlt_dec %s %s then %s else %s)" % (t(lo), t(hi), t(a[2]), t(a[3]))
         if k == "conv":
             x, y = a[1], a[2]
             if self.is_unit(y):
@@ -221,6 +234,11 @@ class Lib:
                 return x / y
             if op == "^":
                 return x ** y
+        if k == "if":
+            c = a[1]
+            l, r = e(c[2]), e(c[3])
+            holds = {"<": l < r, ">": l > r, "<=": l <= r, ">=": l >= r}[c[1]]
+            return e(a[2]) if holds else e(a[3])
         if k == "conv":
             if self.is_unit(a[2]):
                 return e(a[1])
@@ -370,6 +388,15 @@ def gen_model_cases(rng, lib, n):
         cs.append(("scalar", "sech", "sech(%s)" % fl(x), x))
         y = rng.choice([rng.uniform(1.001, 50), rng.uniform(-50, -1.001)])
         cs.append(("scalar", "acoth", "acoth(%s)" % fl(y), y))
+        cs.append(("scalar", "arcsecant", "arcsecant(%s)" % fl(y), y))
+        cs.append(("scalar", "acsc", "acsc(%s)" % fl(y), y))
+        for f in ("secant", "csc", "cosecant"):
+            cs.append(("scalar", f, "%s(%s)" % (f, fl(x)), x))
+        w = rng.uniform(0, 1e6)
+        cs.append(("scalar", "sqrt", "sqrt(%s)" % fl(w), w))
+        cs.append(("scalar", "sqr", "sqr(%s)" % fl(x), x))
+        v = rng.choice([-1, 1]) * rng.uniform(1e-3, 1e6)
+        cs.append(("scalar", "cbrt", "cbrt(%s)" % fl(v), v))
         z = rng.uniform(0.01, 1.0)
         cs.append(("scalar", "asech", "asech(%s)" % fl(z), z))
     return cs
@@ -410,6 +437,8 @@ PAIRS = [
     ("sqr/sqrt", "sqr(sqrt({x}))", (0.0, 1e300), (1e-12, 0.0)),
     ("cbrt", "cbrt(({x})^3)", (-1e100, 1e100), (1e-12, 0.0)),
     ("cot/acot", "cot(acot({x}))", (0.01, 1e6), (1e-9, 0.0)),
+    ("secant/arcsecant", "secant(arcsecant({x}))", (1.0, 1e6), (1e-9, 0.0)),
+    ("csc/acsc", "csc(acsc({x}))", (1.0, 1e6), (1e-9, 0.0)),
     ("coth/acoth", "coth(acoth({x}))", (1.0001, 40.0), (1e-7, 0.0)),
     ("acoth/coth", "acoth(coth({x}))", (0.05, 6.0), (1e-9, 0.0)),   # ill-conditioned beyond: coth x - 1 < 1e-5
     ("sech/asech", "sech(asech({x}))", (0.001, 1.0), (1e-9, 0.0)),
@@ -507,7 +536,7 @@ def run(chk):
         "translator tools/props/c23.py + nbtexpr.py: .nbt arithmetic fragment -> Gen/NbtFunsQ.v, Gen/NbtFunsR.v (regenerated every run)",
         "quantities = magnitude in the base unit; DateTime = rational seconds since the Unix epoch; FFI _unixtime_µs/_from_unixtime_µs "
         "modelled as truncation to whole microseconds without range limits (Stdlib/Model.v)",
-        "_mixed_unit_list is a hand port (Stdlib/Model.v); unit_list's unique/sort is done by the generator",
+        "_mixed_unit_list and _clean_units (unique, sort descending) are hand ports (Stdlib/Model.v), compared with unit_list() on raw unit lists",
         "real-number theorems use the stdlib axioms listed per theorem",
     ]
 
@@ -569,8 +598,8 @@ def run(chk):
         for (us, v, vu), o in zip(mixed_cases, o_mixed):
             clean = sorted(set(us), key=lambda u: -sizes[u])
             mclean.append(clean)
-            mterms.append(("show_mixed (mixed_unit_list %s [%s]%%list [])" % (
-                coq_q(Fraction(v) * Fraction(sizes[vu])), "; ".join(coq_q(Fraction(sizes[u])) for u in clean)), "@"))
+            mterms.append(("show_mixed (unit_list [%s]%%list %s)" % (
+                "; ".join(coq_q(Fraction(sizes[u])) for u in us), coq_q(Fraction(v) * Fraction(sizes[vu]))), "@"))
         mstr = common.coq_mismatches(["Stdlib.Model", "Stdlib.Exec"], mterms, "c23m", shard_size=100, prelude="From Coq Require Import QArith.")
         for i, ((us, v, vu), o) in enumerate(zip(mixed_cases, o_mixed)):
             n_mixed_model += 1
